@@ -493,20 +493,24 @@ func Explore(p *Program, hname string, cfg *HarnessCfg, stats *SolverStats) (*Ha
 				queue = queue[:len(queue)-1]
 				active++
 				mu.Unlock()
-				if m == nil {
-					m = NewMachine(p, cfg, shared, stats)
-				}
 				var res *PathResult
 				func() {
 					defer func() {
 						if r := recover(); r != nil {
 							mu.Lock()
 							if firstPanic == nil {
-								firstPanic = fmt.Sprintf("engine panic on prefix %v: %v\nSSA stack:\n%s\n%s", prefix, r, m.crash, stackTrace())
+								crash := ""
+								if m != nil {
+									crash = m.crash
+								}
+								firstPanic = fmt.Sprintf("engine panic on prefix %v: %v\nSSA stack:\n%s\n%s", prefix, r, crash, stackTrace())
 							}
 							mu.Unlock()
 						}
 					}()
+					if m == nil {
+						m = NewMachine(p, cfg, shared, stats)
+					}
 					res = m.RunPath(h, prefix)
 				}()
 				atomic.AddInt64(&shared.paths, 1)
